@@ -645,3 +645,64 @@ def root_through_refs(fn, nid, hops=5):
             return r
         r = nr
     return r
+
+
+def loop_escape(fn, L):
+    """Witness path on which an iteration of element loop L is left without reaching the advance (break / return inside
+    the body): a loop that has to treat EVERY element must not have one.  None = every iteration reaches the advance."""
+    pos = fn.positions()
+    bar = lambda e: e == L.inc or is_noreturn(fn, e)
+    if L.kind == 'iterator':
+        if L.start not in pos:
+            return None
+        cb = fn.blocks[pos[L.start][0]]
+        if len(cb['succs']) != 2 or cb['succs'][0] is None:
+            return None
+        return path_search(fn, cb['succs'][0], exit_t, bar, None, from_block_start=True)
+    return path_search(fn, L.start, exit_t, bar)
+
+
+def eval_bool(fn, nid, symbols, depth=0):
+    """Three-valued evaluation of a boolean/integer expression: constants, ! && || == != over constants and the symbols
+    given by symbols(node) -> int | None (None = not a symbol).  Returns int/bool or None (unknown)."""
+    n = fn.sn(nid) if nid is not None else None
+    hops = 0
+    while n is not None and n.get('k') == 'cast' and hops < 4:
+        n = fn.sn(n.get('sub'))
+        hops += 1
+    if n is None or depth > 30:
+        return None
+    sv = symbols(n)
+    if sv is not None:
+        return sv
+    cv = fn.const_value(n['id'])
+    if cv is not None:
+        return cv
+    k = n.get('k')
+    if k == 'unop' and n.get('op') == '!':
+        v = eval_bool(fn, n['sub'], symbols, depth + 1)
+        return None if v is None else (0 if v else 1)
+    if k == 'binop':
+        a = eval_bool(fn, n['lhs'], symbols, depth + 1)
+        b = eval_bool(fn, n['rhs'], symbols, depth + 1)
+        op = n.get('op')
+        if op == '&&':
+            if a is not None and not a or b is not None and not b:
+                return 0
+            return 1 if (a and b) else None
+        if op == '||':
+            if a or b:
+                return 1
+            return 0 if (a is not None and b is not None) else None
+        if a is None or b is None:
+            return None
+        if op == '==':
+            return int(a == b)
+        if op == '!=':
+            return int(a != b)
+    if k == 'condop':
+        c = eval_bool(fn, n['cond'], symbols, depth + 1)
+        if c is None:
+            return None
+        return eval_bool(fn, n['then'] if c else n['else'], symbols, depth + 1)
+    return None
